@@ -530,7 +530,12 @@ def flood_fill_complete(rep, prog):
     from ..model import def_chain
     fn = prog.fn("cell::check_face_normal_orientation")
     fi = prog.index(fn)
-    pushes = [n for n in walk(fn["body"]) if n.get("k") == "CXXMemberCallExpr" and n.get("callee", "").split("::")[-1] in ("push_back", "emplace_back", "push_front") and "pair" in (strip(call_obj(n) or {}).get("t") or "")]
+    def _obj_did(n):
+        o = strip(call_obj(n) or {})
+        return (o.get("ref") or {}).get("did") if o.get("k") == "DeclRefExpr" else None
+    # the work list: a local container that is popped inside a loop and pushed to
+    popped = {_obj_did(n) for n in walk(fn["body"]) if n.get("k") == "CXXMemberCallExpr" and n.get("callee", "").split("::")[-1] in ("pop_front", "pop_back", "pop", "erase") and fi.enclosing(n, ("WhileStmt", "ForStmt", "DoStmt")) is not None} - {None}
+    pushes = [n for n in walk(fn["body"]) if n.get("k") == "CXXMemberCallExpr" and n.get("callee", "").split("::")[-1] in ("push_back", "emplace_back", "push_front", "emplace_front", "push", "emplace") and _obj_did(n) in popped and call_args(n)]
     groups = {}
     for pcall in pushes:
         blk = None
@@ -544,7 +549,7 @@ def flood_fill_complete(rep, prog):
         edges = set()
         pairs = set()
         for pcall in calls:
-            for d_ in _chain_through_ranges(fn, call_args(pcall)[0]):
+            for d_ in [y_ for a_ in call_args(pcall) for y_ in _chain_through_ranges(fn, a_)]:
                 for x in walk(d_):
                     if x.get("k") == "CXXMemberCallExpr" and x.get("callee") == "cell::get_edge":
                         pr = frozenset(render(a_).replace(" ", "") for a_ in call_args(x))
